@@ -86,6 +86,12 @@ def run_covariance(case):
     Q = trials.rand_orth(rng, norb)
     spin_dep = kind != "rhf"
     h0, h1, chol = trials.rand_ham(rng, norb, case["nchol"], spin_dep=spin_dep, chol_scale=0.5 / max(1.0, case["nchol"] / 3.0) ** 0.5)
+    nonsym = bool(case["s"] % 3 == 0)
+    if nonsym:
+        # a one-body matrix with an antisymmetric part (h1 + coupling * observable for a non-symmetric observable): whatever a trial makes
+        # of it (its symmetric part, or the matrix as given) must still not depend on the orbital basis
+        anti = rng.normal(size=(norb, norb)) * 0.3
+        h1 = np.array([h1[0] + (anti - anti.T), h1[1] + (anti - anti.T) * (0.5 if spin_dep else 1.0)])
     ham = hamiltonian.hamiltonian(norb)
     hd = trials.ham_data_of(h0, h1, chol)
     hd_rot = ham.rotate_orbs(dict(hd), jnp.array(Q))
@@ -129,7 +135,7 @@ def run_covariance(case):
         f1 = np.asarray(trial._calc_force_bias(jnp.array(wu1), jnp.array(wd1_), hd1, wd1))
         key = "C15/covariance/%s" % kind
         events.append(judge("covariance/overlap-factor-one", abs(o1 / o0 - 1.0), 1e-9 / rel, key + "/overlap"))
-        events.append(judge("covariance/energy-unchanged", abs(e1 - e0), 1e-9 * S / rel, key + "/energy", e0=e0, e1=e1, spin_dep_h1=spin_dep))
+        events.append(judge("covariance/energy-unchanged", abs(e1 - e0), 1e-9 * S / rel, key + "/energy" + ("/non-symmetric-h1" if nonsym else ""), e0=e0, e1=e1, spin_dep_h1=spin_dep))
         events.append(judge("covariance/force-bias-unchanged", float(np.max(np.abs(f1 - f0))), 1e-9 * max(1.0, S) / rel, key + "/force-bias"))
         cnt["covariance"] += 1
     if len(ratios) >= 2:
